@@ -23,32 +23,17 @@ func init() {
 		ph, bw := bestIndexRoles(c, s)
 		checkRevertRemovesEntry(c, s, ph, bw)
 		// apply side puts the entry
-		for _, call := range s.apply.Calls(false) {
-			if callee := c.P.FuncOf(call.Fn); callee != nil && len(callee.CallsTo(false, ph.Obj)) > 0 {
-				ob := c.Ob(callee, "apply-puts-entry", callee.Body.Pos())
-				puts := false
-				rawPut := c.P.Method("chain", "DBBucket", "Put")
-				for _, c2 := range callee.Calls(false) {
-					f2 := c.P.FuncOf(c2.Fn)
-					if f2 == nil || !bw[c2.Fn] {
-						continue
-					}
-					// the best-index writer reaches DBBucket.Put through the wrapper (two hops at most)
-					for _, c3 := range f2.Calls(false) {
-						if w := c.P.FuncOf(c3.Fn); w != nil {
-							if len(w.CallsTo(false, rawPut)) > 0 {
-								puts = true
-							}
-							for _, c4 := range w.Calls(false) {
-								if w2 := c.P.FuncOf(c4.Fn); w2 != nil && len(w2.CallsTo(false, rawPut)) > 0 {
-									puts = true
-								}
-							}
-						}
-					}
+		f := s.stateViews(c, ph, bw).Of(s.apply)
+		if len(f.CallsTo(false, ph.Obj)) > 0 {
+			ob := c.Ob(f, "apply-puts-entry", f.Body.Pos())
+			rawPut := c.P.Method("chain", "DBBucket", "Put")
+			puts := false
+			for _, call := range f.Calls(false) {
+				if bw[call.Fn] && reaches(c.P, call.Fn, rawPut, 3) {
+					puts = true
 				}
-				ob.Check(puts, nil, "applying a block does not put its best-index entry")
 			}
+			ob.Check(puts, nil, "applying a block does not put its best-index entry")
 		}
 	}})
 }
